@@ -140,6 +140,32 @@ theorem decode_encode_params (ps : List Param)
 example : decodeParams (encodeParams [(1, [9]), (2, [9, 9]), (3, [9, 9, 9]), (4, [9, 9, 9, 9]), (5, [])]) =
     .ok [(1, [9]), (2, [9, 9]), (3, [9, 9, 9]), (4, [9, 9, 9, 9]), (5, [])] := by decide
 
+/-- Round 4: nothing in `decode_encode_params` / `packet_roundtrip` asks for DISTINCT entries — the lists range over all
+lists, so repeated entries (equal to the last one, all equal, …) are covered.  Spelled out for the shape a
+"pad every parameter except the last, found by value" encoder gets wrong: an entry `p` of any length, `n` times,
+around an arbitrary middle part. -/
+theorem params_roundtrip_repeated (p : Param) (n : Nat) (mid : List Param)
+    (hp : p.1 < 65536 ∧ p.2.length + 4 < 65536) (hm : ∀ q ∈ mid, q.1 < 65536 ∧ q.2.length + 4 < 65536) :
+    decodeParams (encodeParams (List.replicate n p ++ mid ++ [p])) = .ok (List.replicate n p ++ mid ++ [p]) := by
+  refine (decode_encode_params _ ?_).1
+  intro q hq
+  simp only [List.mem_append, List.mem_replicate, List.mem_singleton] at hq
+  rcases hq with (⟨_, rfl⟩ | h) | rfl
+  · exact hp
+  · exact hm q h
+  · exact hp
+
+example : decodeParams (encodeParams [(0x8008, [130, 192]), (0xC000, []), (0x8008, [130, 192])]) =
+    .ok [(0x8008, [130, 192]), (0xC000, []), (0x8008, [130, 192])] := by decide
+example : (encodeParams [(0x8008, [130, 192]), (0x8008, [130, 192])]).length = 14 := by decide
+example : parsePacket (serializePacketRaw 5000 5000 0
+      (.init .init 0 1 131072 65535 65535 5 [(0x8008, [130, 192]), (0xC000, []), (0x8008, [130, 192])])) =
+    .ok (5000, 5000, 0, [.init .init 0 1 131072 65535 65535 5 [(0x8008, [130, 192]), (0xC000, []), (0x8008, [130, 192])]]) :=
+  parsePacketG_serialize true _ _ _ _ (by decide) (by decide)
+example : parsePacket (serializePacketRaw 5000 5000 7 (.sack 0 9 1 [(2, 3), (2, 3)] [7, 7, 7])) =
+    .ok (5000, 5000, 7, [.sack 0 9 1 [(2, 3), (2, 3)] [7, 7, 7]]) :=
+  parsePacketG_serialize true _ _ _ _ (by decide) (by decide)
+
 /-- RE-CONFIG parameter classes: `cls.parse(bytes(p)) == p`, and the type table finds the class. -/
 theorem reconfig_roundtrip (p : RcParam) (h : p.inRange = true) :
     p.serialize = .ok p.bytes ∧ RcParam.parse p.cls p.bytes = .ok p ∧
